@@ -28,6 +28,8 @@ def run(ctx):
     gram.g6_modifiers(ctx, g, P)
     gram.g12_scan_strings(ctx, g, P)
     gram.g18_message_not_key(ctx, g, P)
+    # a comment is only a comment for a parser that saw where it began: the file's text is parsed whole, in one piece
+    finder.rule_parse_complete(ctx, ctx.bin, "C11-R2")
     finder.rule_macro_filter(ctx, facts, "C11-R1")
     finder.rule_filter_before_entry(ctx, facts, "C11-R1")
     ctx.assume("pest semantics: COMMENT is tried between the elements of every non-atomic rule, including the scan loop of `file`")
